@@ -281,6 +281,10 @@ def _python_side(ctx):
                     keys_ok = all(pyast.unparse(elts[cols.index(k)]) == "target['%s']" % k for k in keycols)
                     tok0 = tok0 and keys_ok
         ctx.add(core.decided('%s/sum-select-delete-insert-share-the-full-key' % fname, ok_sel and ok_del and ok_ins and tok0, 'select=%s delete=%s insert=%s token0=%s' % (ok_sel, ok_del, ok_ins, tok0), kind='scan'))
+        # the sum that is re-inserted must be read under a lock: between a plain snapshot read and the DELETE a billing trigger
+        # may add usage to a shard of this key, which the DELETE would then remove while the stale sum is re-inserted
+        first_locks = bool(sum_sel) and sum_sel[0].select.locking == 'FOR UPDATE' and stmts.index(sum_sel[0]) == 0
+        ctx.add(core.decided('%s/the-sum-to-re-insert-is-read-under-a-lock-first' % fname, first_locks, 'locking=%r' % (sum_sel[0].select.locking if sum_sel else None), kind='scan'))
         txt = pyast.unparse(compact[0])
         flows = "original_usage = await tx.execute_and_fetchone" in txt and ("new_usage['usage'] != original_usage['usage']" in txt)
         ctx.add(core.decided('%s/inserted-usage-is-the-selected-sum-and-is-rechecked' % fname, flows, '', kind='scan'))
